@@ -189,6 +189,9 @@ class Path:
             ctx.reductions = []
         self.stats = ctx.stats
         self.reductions = ctx.reductions
+        if not hasattr(ctx, "loop_obligations"):
+            ctx.loop_obligations = []
+        self.loop_obligations = ctx.loop_obligations
 
     @property
     def raised(self):
